@@ -91,7 +91,10 @@ def run_part(v, tier):
             continue                       # documents that run to the end of the input: a sample is enough (one recorded finding covers them)
         h = int(hashlib.sha1(json.dumps([d["form"], d["lines"]]).encode()).hexdigest()[:6], 16)
         ctxs = CONTEXTS if tier != "quick" or len(d["lines"]) < 2 else [CONTEXTS[h % 8], CONTEXTS[(h // 8) % 8]]
-        if tier != "quick" and len(d["lines"]) == 3:
+        if tier != "quick" and len(d["lines"]) >= 3:
+            # the long documents are 190 k: one placement each, and every sixth of them (by hash), is what finishes in minutes
+            if (h // 64) % 6:
+                continue
             ctxs = [CONTEXTS[h % 8]]
         for ctx in dict.fromkeys(ctxs):
             scr = script(d, ctx, h)
